@@ -180,6 +180,7 @@ func (e *EnumSpec) size() int {
 type genOpts struct {
 	Ties     bool // equal names for types/units/enums/attributes/builders, equal sizes, equal node ids across buses
 	MaxDepth int
+	Buses    int // number of buses (0: 1..3)
 }
 
 const nameChars = "abcdefghijklmnopqrstuvwxyzABCDEFGHIJKLMNOPQRSTUVWXYZ0123456789_ .-+*"
@@ -371,6 +372,9 @@ func genSpec(r *rng, o genOpts) *Spec {
 	allIfs := append([]IfRef(nil), free...)
 
 	nBuses := 1 + r.below(3)
+	if o.Buses > 0 {
+		nBuses = o.Buses
+	}
 	for bi := 0; bi < nBuses; bi++ {
 		b := &BusSpec{Name: g.uname("bus"), Desc: g.desc(), Builder: -1}
 		if r.chance(70) {
